@@ -145,6 +145,42 @@ pub fn run_case(case: &Value) -> (Vec<F>, String) {
             }
             outcome = "errors".into();
         }
+        "duplex-restart" => {
+            // a duplex pipeline that ends after 2 inputs: the restarted instance must not be fed
+            // the sends of the previous lifecycle again
+            let ctx = w.ctx_a;
+            let sp = w.append_c("echo.spawn", ctx, Some("lines | first 2 | each {|x| $\"echo:($x)\"}"), Some(json!({"duplex": true})));
+            w.wait(|f| f.topic == "echo.start" && meta_str(f, "source_id") == Some(sp.id.to_string()), 20.0);
+            w.append_c("echo.send", ctx, Some("first-1\n"), None);
+            w.append_c("echo.send", ctx, Some("first-2\n"), None);
+            let stop = w.wait(|f| f.topic == "echo.stop" && meta_str(f, "source_id") == Some(sp.id.to_string()), 20.0);
+            if stop.is_none() {
+                fs.push(F { kind: "c18.duplex.nostop".into(), msg: format!("{}: the pipeline ended after two inputs but no stop was emitted", label) });
+            } else {
+                let stop = stop.unwrap();
+                let restart = w.wait(|f| f.topic == "echo.start" && f.id > stop.id && meta_str(f, "source_id") == Some(sp.id.to_string()), 20.0);
+                match restart {
+                    None => fs.push(F { kind: "c18.norestart".into(), msg: format!("{}: the generator was not started again after its stop", label) }),
+                    Some(rs) => {
+                        std::thread::sleep(Duration::from_millis(300));
+                        w.append_c("echo.send", ctx, Some("second-1\n"), None);
+                        w.append_c("echo.send", ctx, Some("second-2\n"), None);
+                        w.wait(|f| f.topic == "echo.stop" && f.id > rs.id && meta_str(f, "source_id") == Some(sp.id.to_string()), 20.0);
+                        let got: Vec<String> = w.snapshot().iter().filter(|f| f.topic == "echo.recv" && f.id > rs.id).filter_map(|f| w.content(f)).take(2).collect();
+                        let want = vec!["echo:second-1".to_string(), "echo:second-2".to_string()];
+                        if got != want {
+                            let kind = if got.iter().any(|g| g.contains("first")) { "c18.duplex.refed" } else { "c18.duplex.sequence" };
+                            fs.push(F { kind: kind.into(), msg: format!("{}: the restarted instance produced {:?}; the sends appended while it ran were {:?}", label, got, want) });
+                        }
+                    }
+                }
+            }
+            let firsts: Vec<String> = w.snapshot().iter().filter(|f| f.topic == "echo.recv").filter_map(|f| w.content(f)).filter(|c| c.contains("first")).collect();
+            if firsts != vec!["echo:first-1".to_string(), "echo:first-2".to_string()] {
+                fs.push(F { kind: "c18.duplex.refed".into(), msg: format!("{}: the sends of the first lifecycle were echoed as {:?} (exactly once each expected)", label, firsts) });
+            }
+            outcome = "duplex-restart".into();
+        }
         _ => {
             // duplex: sends interleaved with other traffic
             let n = case["sends"].as_u64().unwrap() as usize;
@@ -202,6 +238,7 @@ pub fn cases(thorough: bool) -> Vec<Value> {
         }
     }
     v.push(json!({"kind": "errors"}));
+    v.push(json!({"kind": "duplex-restart"}));
     for n in 0..=3 {
         for noise in [false, true] {
             v.push(json!({"kind": "duplex", "sends": n, "noise": noise}));
